@@ -256,14 +256,23 @@ func NewTypecast(scope *types.Scope, imports util.ImportNames, t types.Type, inn
 			expr = typ.Obj().Name()
 			break
 		}
+		// An instantiated generic type is written with its type arguments: "Box[int]".
+		name := typ.Obj().Name()
+		if args := typ.TypeArgs(); args != nil && 0 < args.Len() {
+			argNames := make([]string, args.Len())
+			for k := range argNames {
+				argNames[k] = imports.TypeName(args.At(k))
+			}
+			name += "[" + strings.Join(argNames, ", ") + "]"
+		}
 		// If the type is defined within the current package (and is not merely the
 		// namesake of a type the current package declares).
 		if scope.Lookup(typ.Obj().Name()) == typ.Obj() {
-			expr = typ.Obj().Name()
+			expr = name
 		} else if pkgName, ok := imports.LookupName(typ.Obj().Pkg().Path()); ok {
-			expr = fmt.Sprintf("%v.%v", pkgName, typ.Obj().Name())
+			expr = fmt.Sprintf("%v.%v", pkgName, name)
 		} else {
-			expr = fmt.Sprintf("%v.%v", typ.Obj().Pkg().Name(), typ.Obj().Name())
+			expr = fmt.Sprintf("%v.%v", typ.Obj().Pkg().Name(), name)
 		}
 	case *types.Basic:
 		expr = t.String()
